@@ -7,9 +7,11 @@ import ClusterVerif.Lemmas.C18SyncClusterB
 import ClusterVerif.Lemmas.C18SyncClusterC
 import ClusterVerif.Lemmas.C18SyncClusterR
 import ClusterVerif.Model.C18Inventory
+import ClusterVerif.Model.C18ChanOps
 import ClusterVerif.Lemmas.C18SyncMoreA
 import ClusterVerif.Lemmas.C18SyncMoreB
 import ClusterVerif.Lemmas.C18SyncMoreR
+import ClusterVerif.Lemmas.C18SyncClusterS
 
 /-!
 # C18 — concurrent use of the API never races, panics, deadlocks or tears results
@@ -518,6 +520,39 @@ example : inventoryOK [(".|Cluster", "newMu", "Mutex", false)] [] = false ∧
     inventoryOK [(".|Cluster", "newMu", "Mutex", true)] [] = true ∧
     inventoryOK [] [(".|Cluster", "gone")] = false := by decide
 
+/-- round 8b, SEMANTIC tie of the synchronisation models: every channel send and every `close` in a function of the ten anchored
+files (`Gen.chanOps`, go/ast) is a known site of a transcribed program, and the program has the same shape there — a send that is a
+case of a `select` with `default:` is an alternative of an instruction with a default branch (`tryOp`), a plain send is a plain
+one-alternative instruction, a `close` is present in the thread; every listed site still exists. A queue send that loses its
+`default:` (wrong edits t2 / w1 / q1 of `more_wrong_edits_refuted`) or a new `close` (t3) breaks THIS obligation, a rewrite that
+keeps the channel operations does not. -/
+theorem gen_chan_ops_match_model : chanOpsOK Gen.chanOps = true := by decide +kernel
+
+/-- the facts the three blocking-send edits and the closing `Shutdown` would produce are rejected; the edited programs do not have
+the shape of today's facts either -/
+example : chanOpOK ("pintracker/stateless|Tracker.enqueue", "send", "ch", "blocking") = false ∧
+    chanOpOK ("monitor/metrics|Checker.alert", "send", "mc.alertCh", "blocking") = false ∧
+    chanOpOK ("consensus/crdt|Consensus.LogPin", "send", "css.batchItemCh", "blocking") = false ∧
+    chanOpOK ("pintracker/stateless|Tracker.Shutdown", "close", "spt.pinCh", "-") = false ∧
+    sendsHaveDefault Sync.Progs.tTrack2Blocking 1 = false ∧
+    closesOnly Sync.Progs.aShutdown [0] = true ∧ closesOnly Sync.Progs.tShutdownClosesQueue [0] = false := by decide +kernel
+
+/-- Prop reading of `sendsHaveDefault` -/
+theorem sendsHaveDefault_sound (code : Sync.Code) (ch : Nat) (h : sendsHaveDefault code ch = true) :
+    ∀ ins ∈ code, ∀ a ∈ ins.alts, a.op = Sync.Op.send ch → ins.dflt.isSome = true := by
+  intro ins hins a ha hop
+  have h1 := List.all_eq_true.mp (List.all_eq_true.mp h ins hins) a ha
+  simp only [hop, opSendsOn, Nat.beq_refl, Bool.not_true, Bool.false_or] at h1
+  exact h1
+
+open Sync in
+/-- what the `default:` buys, for EVERY program and state: a thread standing at an instruction with a default branch can always
+move (one of its alternatives is enabled, or the default is taken) — a `select` with `default:` never blocks, whatever the
+other threads did to the channel -/
+theorem default_never_blocks {P : List Code} {cfg : Cfg} {s t pc : Nat} {ins : Instr}
+    (h0 : panicCode s = 0) (hi : instrAt P cfg s t = some ins) (hd : ins.dflt = some pc) :
+    ∃ a, (Sync.step P cfg s t a).isSome = true := dflt_never_blocks h0 hi hd
+
 /-- the table is not vacuous -/
 theorem gen_table_nonempty : 60 ≤ Gen.accesses.length ∧ 5 ≤ Gen.edges.length ∧ 15 ≤ Gen.guards.length := by decide
 
@@ -675,6 +710,14 @@ is not satisfied by a spinning ticker: every maximal execution ends with every s
 theorem cluster_shutdown_safe :
     SafeAll progC (cfgC 9) initC ∧ SafeAll progCF (cfgC 9) initC ∧ SafeAll progCR (cfgC 9) initC :=
   ⟨progC_certified.safe, progCF_certified.safe, progCR_certified.safe⟩
+
+open Sync Sync.Progs in
+/-- round 8b: scenario (c-i) with `watchPeers`' `for { select … }` loop AS WRITTEN (`progCS`, 1858 states; `progC` unrolls it
+once): under every schedule no panic, no racy state, never a state where nothing can move. Round 8 had only evaluated this
+program. With the loop the ticker can move until the context is cancelled, so the liveness conjunct says less than in
+`cluster_shutdown_safe` — which is why both are kept: `progC` for "every Shutdown returns", `progCS` for "the unrolling
+hides no panic / race of the loop program". -/
+theorem cluster_shutdown_safe_loop : SafeAll progCS (cfgC 9) initC := progCS_certified.safe
 
 open Sync Sync.Progs in
 /-- the K18b window is a run of `progC`: a user `Shutdown` reaches `c.wg.Wait()` (lock, flags read once, cancel) while
